@@ -15,6 +15,9 @@
       prescribes (C05_merge_guard), hence C05_order (any permutation of the branches) and
       C05_untouched_rows / C05_untouched_cells; for two branches C05_identity, C05_idem,
       C05_disjoint.
+    - command level ([cmd_merge] = runMerge's automatic path): C05_cmd_committed_all_resolved,
+      C05_cmd_unresolved_refused (any tables), C05_cmd_guard (refuses iff the specification finds a
+      conflict; under the guard).
     NOT proved (partial by plan; covered by the correspondence harness only): the table-level
     laws when a branch changes the column layout or the key is not first (there the code
     deviates: known findings F1, D1-D4), keyless tables (F2), the caller policy
@@ -305,3 +308,52 @@ Theorem C05_guard_nonvacuous :
             ~ table_keys [s_a] ar_base [ar_b1; ar_b2] k.
 Proof. exact Merge_witness_proofs.guard_nonvacuous. Qed.
 Print Assumptions C05_guard_nonvacuous.
+
+(** ---------- command level: `wrgl merge BRANCH COMMIT` without --no-gui ---------- *)
+(** [cmd_merge] models runMerge's automatic path: collectMergeConflicts drains Merger.Start; with
+    no unresolved record the result is committed (blocks = true) / written (--no-commit, blocks =
+    false), otherwise the merge tool is asked for - with no terminal the command refuses.
+
+    Never silent, any tables, any number of branches: a concluded merge has no unresolved record ... *)
+Theorem C05_cmd_committed_all_resolved : forall base others blocks o,
+  cmd_merge base others blocks = CmdCommitted o -> all_resolved (mo_recs o) = true.
+Proof. exact MergeTable_proofs.cmd_committed_resolved. Qed.
+Print Assumptions C05_cmd_committed_all_resolved.
+
+(** ... and whenever the merger (under any caller policy / result path) reports an unresolved
+    record - also one with NO unresolved column, as for a row removed by one branch and changed
+    only through the column set by another - the command refuses *)
+Theorem C05_cmd_unresolved_refused : forall base others policy remmode blocks blocks' o0,
+  run_merge base others policy remmode blocks = Ok o0 -> all_resolved (mo_recs o0) = false ->
+  cmd_merge base others blocks' = CmdRefused.
+Proof. exact MergeTable_proofs.cmd_unresolved_refused. Qed.
+Print Assumptions C05_cmd_unresolved_refused.
+
+(** under the same-layout guard: the command refuses exactly when the specification finds a
+    conflict for some key, and otherwise commits exactly the specified rows *)
+Theorem C05_cmd_guard : forall cols pk base others blocks,
+  guard cols pk base others ->
+  ((exists k, table_keys pk base others k /\
+              is_conflict (spec_row (length cols) (lookup base k) (map (fun o => lookup o k) others)) = true) ->
+   cmd_merge base others blocks = CmdRefused) /\
+  ((forall k, table_keys pk base others k ->
+              is_conflict (spec_row (length cols) (lookup base k) (map (fun o => lookup o k) others)) = false) ->
+   exists o, cmd_merge base others blocks = CmdCommitted o /\ mo_cols o = cols /\
+     forall r, In r (mo_rows o) <->
+       exists k, table_keys pk base others k /\
+                 outcome_row (spec_row (length cols) (lookup base k) (map (fun o => lookup o k) others)) = Some r).
+Proof. exact MergeTable_proofs.cmd_guard. Qed.
+Print Assumptions C05_cmd_guard.
+
+(** non-vacuity / the shape the command glue must not swallow: base (id,a,b,c) rows 1,2,3; branch 1
+    drops column c, branch 2 deletes row 2.  The record for key 2 is unresolved with an EMPTY set of
+    unresolved columns; the command refuses on both result paths; were the record dropped instead,
+    the base row [2 a s d] would be re-added. *)
+Theorem C05_cmd_refuses_removed_vs_column_change :
+  cmd_merge cm_base [cm_b1; cm_b2] true = CmdRefused /\
+  cmd_merge cm_base [cm_b1; cm_b2] false = CmdRefused /\
+  exists o kr, run_merge cm_base [cm_b1; cm_b2] 0 1 false = Ok o /\ In kr (mo_recs o) /\
+    k_key kr = [s_2] /\ r_resolved (k_res kr) = false /\ r_unres (k_res kr) = [] /\
+    In [s_2; s_a; s_s; s_d] (collected_rows cm_base (mo_recs o) 0).
+Proof. exact Merge_witness_proofs.cmd_refuses_witness. Qed.
+Print Assumptions C05_cmd_refuses_removed_vs_column_change.
